@@ -21,7 +21,7 @@ def one(sid):
 
 
 def main():
-    ids = sorted(x for x in os.listdir(SEED) if os.path.isdir(os.path.join(SEED, x)))
+    ids = sorted(x for x in os.listdir(SEED) if os.path.isdir(os.path.join(SEED, x)) and os.path.exists(os.path.join(SEED, x, 'meta.json')) and os.path.exists(os.path.join(SEED, x, 'patch.diff')))
     with ThreadPoolExecutor(8) as ex:
         res = list(ex.map(one, ids))
     rows = []
